@@ -129,18 +129,22 @@ def _process_step_expression(
             # expression, but it proceeds recursively until no target is
             # found and it and it sets the new targets to the entire list
             # of assets identified during the entire transitive recursion.
+            # Assets already reached are not expanded again, otherwise cyclic
+            # or self associations would never terminate.
             new_target_assets = []
-            for target_asset in target_assets:
-                new_target_assets.extend(model.\
-                    get_associated_assets_by_field_name(target_asset,
-                        step_expression['stepExpression']['name']))
-            if new_target_assets:
-                (additional_assets, _) = _process_step_expression(
-                    lang_graph, model, new_target_assets, step_expression)
-                new_target_assets.extend(additional_assets)
-                return (new_target_assets, None)
-            else:
-                return ([], None)
+            reached_ids = set()
+            frontier = target_assets
+            while frontier:
+                (step_targets, _) = _process_step_expression(
+                    lang_graph, model, frontier,
+                    step_expression['stepExpression'])
+                frontier = []
+                for asset in step_targets:
+                    if asset.id not in reached_ids:
+                        reached_ids.add(asset.id)
+                        new_target_assets.append(asset)
+                        frontier.append(asset)
+            return (new_target_assets, None)
 
         case 'subType':
             new_target_assets = []
